@@ -71,11 +71,32 @@ func newRollout(cfg rolloutCfg, caseID string) *rollout {
 		ro.r.w.sim.ExtMutate(sc.parentInfo().GVR(), sc.ns(), sc.parentName(), func(o sim.Obj) {
 			sim.SetNested(o, sim.Obj{"conditions": []interface{}{
 				sim.Obj{"type": "Available", "status": "True"},
-				sim.Obj{"type": "Updated", "status": "Unknown", "reason": "HookSaysSo"},
+				ownUpdatedCondition(caseID),
 			}}, "spec", "statusExtra")
 		})
 	}
 	return ro
+}
+
+// hookMadeMessage is the message of the Updated condition the hook itself returns: whatever the
+// sync writes must be the controller's own account of the rollout, so this text must never survive.
+const hookMadeMessage = "hook-made message"
+
+// ownUpdatedCondition is the Updated condition a hook returns on its own (determined by the case):
+// with a status that the rollout never computes, or with the very status - and even the reason -
+// the rollout is about to compute, so that "same status, nothing to do" short cuts show.
+func ownUpdatedCondition(caseID string) sim.Obj {
+	switch sim.Hash("owncond" + caseID)[0] % 5 {
+	case 0:
+		return sim.Obj{"type": "Updated", "status": "Unknown", "reason": "HookSaysSo", "message": hookMadeMessage}
+	case 1:
+		return sim.Obj{"type": "Updated", "status": "False", "reason": "HookSaysSo", "message": hookMadeMessage}
+	case 2:
+		return sim.Obj{"type": "Updated", "status": "True", "reason": "HookSaysSo", "message": hookMadeMessage}
+	case 3:
+		return sim.Obj{"type": "Updated", "status": "False", "reason": "RolloutWaiting", "message": hookMadeMessage}
+	}
+	return sim.Obj{"type": "Updated", "status": "True", "reason": "OnLatestRevision", "message": hookMadeMessage}
 }
 
 func (ro *rollout) close() { ro.r.close() }
@@ -554,7 +575,9 @@ func (ro *rollout) judgeSync(before rolloutSnapshot, sr *syncResult) rolloutVerd
 			reason, _ := upd[0]["reason"].(string)
 			msg, _ := upd[0]["message"].(string)
 			okShape := (st == "True" && reason == "OnLatestRevision") || (st == "False" && (reason == "RolloutWaiting" || reason == "RolloutProgressing"))
-			if !okShape {
+			if msg == hookMadeMessage {
+				ro.viol("C07", fmt.Sprintf("updated-condition-is-the-hooks-own:%s/%s", st, reason), fmt.Sprintf("the Updated condition still carries the message the hook returned (status=%q reason=%q message=%q); it must be the controller's account of this sync", st, reason, msg), sr, before)
+			} else if !okShape {
 				ro.viol("C07", fmt.Sprintf("updated-condition-shape:%s/%s:hookcond=%v", st, reason, ro.cfg.OwnCond), fmt.Sprintf("the Updated condition is status=%q reason=%q message=%q; it must tell waiting / progressing / complete", st, reason, msg), sr, before)
 			} else {
 				// complete must mean complete: no desired child left on an older revision record
